@@ -23,7 +23,27 @@ from simkit.world import make_world
 INTERVALS = [1, 1, 2, 3, 5, -1, -2, -3, -7]
 
 
-def make_recorder(mc, interval, sink):
+def count_steps(mc) -> dict:
+    """Harness-owned step counter: wraps the driver's step() so that the number of steps actually *performed* (for Monte
+    Carlo drivers: step generators run to exhaustion) is known without reading the simulation's own step_count."""
+    import inspect
+
+    perf = {"done": 0, "start": int(mc.step_count), "counter_mismatch": []}
+    orig = mc.step
+    if inspect.isgeneratorfunction(type(mc).step):
+        def counted():
+            yield from orig()
+            perf["done"] += 1
+    else:
+        def counted():
+            r = orig()
+            perf["done"] += 1
+            return r
+    mc.step = counted
+    return perf
+
+
+def make_recorder(mc, interval, sink, perf):
     from quansino.io.core import Observer
 
     class Recorder(Observer):
@@ -35,7 +55,10 @@ def make_recorder(mc, interval, sink):
             self.sink = sink
 
         def __call__(self):
-            self.sink.append(int(self.mc.step_count))
+            done = perf["start"] + perf["done"]
+            self.sink.append(done)
+            if int(self.mc.step_count) != done and len(perf["counter_mismatch"]) < 5:
+                perf["counter_mismatch"].append((int(self.mc.step_count), done))
 
         def attach_simulation(self, *a, **k): ...
 
@@ -67,27 +90,31 @@ def execute_split(sc: dict, segments: list) -> dict:
     w = make_world(sc, (), opts, disk)
     mc = w.mc
     sinks = {}
+    perf = count_steps(mc)
     for i, iv in enumerate(sc["recorders"]):
         sinks[i] = []
-        mc.file_manager.attach_observer(f"rec{i}", make_recorder(mc, iv, sinks[i]))
+        mc.file_manager.attach_observer(f"rec{i}", make_recorder(mc, iv, sinks[i], perf))
     counts = []
     if sc.get("precreate") and len(segments) > 1 and all(s["entry"] in ("irun", "srun") for s in segments):
         # all pieces are requested first and only then iterated one after the other
         is_mc = hasattr(mc, "moves")
         gens = [(mc.srun(s["n"]) if (s["entry"] == "srun" and is_mc) else mc.irun(s["n"])) for s in segments]
         for seg, g in zip(segments, gens):
-            before = mc.step_count
+            before = perf["done"]
             for step in g:
                 if is_mc and seg["entry"] != "srun":
                     for _ in step:
                         pass
-            counts.append(mc.step_count - before)
+            counts.append(perf["done"] - before)
         segments = []
     for seg in segments:
-        before = mc.step_count
+        before = perf["done"]
         drive(mc, seg["entry"], seg["n"])
-        counts.append(mc.step_count - before)
+        counts.append(perf["done"] - before)
+    if int(mc.step_count) != perf["start"] + perf["done"]:
+        perf["counter_mismatch"].append((int(mc.step_count), perf["start"] + perf["done"]))
     out = {"calls": {i: list(s) for i, s in sinks.items()}, "counts": counts, "step_count": int(mc.step_count),
+           "counter_mismatch": perf["counter_mismatch"],
            "positions": w.atoms.positions.tobytes().hex(), "cell": np.asarray(w.atoms.cell.array).tobytes().hex(),
            "numbers": w.atoms.numbers.tolist()}
     if hasattr(mc, "default_logger") and mc.default_logger is not None:
@@ -199,6 +226,10 @@ class C15(HistoryCampaign):
                                                 f"{seg['entry']}({seg['n']}) performed {done} steps"))
         # (1) reference call schedule, for both executions
         for label, ex in (("split", split), ("single", single)):
+            if ex["counter_mismatch"]:
+                res.violations.append(Violation("C15", "step_counter_differs_from_steps_performed",
+                                                f"{ctx if label == 'split' else f'driver={drv}|split=single_call'}",
+                                                f"{label}: (step_count, steps performed) at observer calls / at the end: {ex['counter_mismatch']}"))
             for i, iv in enumerate(sc["recorders"]):
                 want = expected_calls(iv, n)
                 got = ex["calls"][i]
